@@ -116,7 +116,7 @@ class C10(BaseCheck):
              'scales.timer_queue:TimerQueue.Schedule')
   REQUIRED_ANCHORS = ANCHORS
   REQUIRED_CLASSES = ('new-head-while-sleeping', 'past-deadline', 'tie', 'cancel-head',
-                      'boundary', 'far-deadlines', 'deadline-exactly-on-tick', 'action-raises', 'action-blocks', 'long-schedule-history', 'many-actions-still-running', 'queue-clock-differs-from-wall-clock', 'falsy-callable-action')
+                      'boundary', 'far-deadlines', 'deadline-exactly-on-tick', 'action-raises', 'action-blocks', 'long-schedule-history', 'many-actions-still-running', 'queue-clock-differs-from-wall-clock', 'falsy-callable-action', 'resolution:unusual')
   ASSUMPTIONS = ('virtual clock: no timer lateness is injected (J=0), so lateness bounds are exact',
                  'rounded deadline computed in exact rationals; actions within 2us of a grid '
                  'point are exempt from the ordering clause only')
@@ -177,6 +177,10 @@ class C10(BaseCheck):
     import gevent
     from scales.timer_queue import TimerQueue
     res = rng.choice([0.01, 0.01, 0.01, 0.1, 1, None, 0, 0.25, 0.5])
+    if idx % 8 == 5:
+      # resolutions that are no whole fraction of a second, and coarse ones: the grid is the multiples of the
+      # resolution itself
+      res = rng.choice([0.3, 0.03, 0.4, 2, 1.5, 0.7, 5])
     reff = res or 0.01
     # the queue's own clock: in some cases it is not the wall clock (an offset clock, a clock in another epoch);
     # every instant below is read from it
@@ -350,7 +354,8 @@ class C10(BaseCheck):
     nrun = sum(1 for a in actions if a['runs'])
     out.nontrivial = nrun > 0 and bool(races)
     out.classes = sorted(races | ({'long-schedule-history'} if self._long_history else set())
-                         | ({'queue-clock-differs-from-wall-clock'} if off else set()))
+                         | ({'queue-clock-differs-from-wall-clock'} if off else set())
+                         | ({'resolution:unusual'} if res in (0.3, 0.03, 0.4, 2, 1.5, 0.7, 5) else set()))
     out.extra = {'actions': len(actions), 'actions_run': nrun,
                  'cancels': sum(1 for a in actions if a['cancel_vt'] is not None),
                  'diag_seq_ne_peeked_logs': len(crit)}
